@@ -84,6 +84,11 @@ type Case struct {
 	// Warm: the same PluginSigner instance first signs another artifact with the plugin answering
 	// honestly; nothing of that call may influence the judged one
 	Warm bool `json:"warm,omitempty"`
+	// InPlace (envelope path, in-process plugin): when the edited payload is as long as the
+	// request's, the plugin writes it INTO the request's payload buffer and signs that buffer;
+	// what the library asked for is the caller's descriptor, not what the plugin left in a
+	// buffer it was lent
+	InPlace bool `json:"inPlace,omitempty"`
 }
 
 func (c *Case) mediaType() string {
@@ -423,6 +428,9 @@ func classesOf(c *Case, r *result) []string {
 	if c.Fuzz {
 		cl = append(cl, "fuzz-payload")
 	}
+	if r.pl != nil && r.pl.inPlace {
+		cl = append(cl, "payload-rewritten-in-request-buffer")
+	}
 	seen := map[string]bool{}
 	for _, e := range c.Edits {
 		for _, l := range []string{"edit=" + e.Name, "editgroup=" + groupOf(c.Path, e.Name)} {
@@ -547,6 +555,7 @@ func genCase(rt *rapid.T) Case {
 		c.Edits = append(c.Edits, Edit{d.name, rapid.IntRange(0, 63).Draw(rt, "variant")})
 	}
 	c.Warm = rapid.IntRange(0, 3).Draw(rt, "warmSameSigner") == 0
+	c.InPlace = c.Path == "envelope" && len(c.Edits) > 0 && rapid.IntRange(0, 1).Draw(rt, "inPlace") == 0
 	return c
 }
 
